@@ -279,6 +279,79 @@ pub fn c13_test(sc: &SegCase) -> Verdict {
 }
 
 // ------------------------------------------------------------------------------------------
+// C13, history: what a connection's peer observes depends on the bytes sent on *that* connection
+// only — not on what the thread that serves it served before (pool workers are reused).
+
+#[derive(Clone, Debug, Serialize, Deserialize)]
+pub struct HistoryCase {
+    /// the earlier connection, served on the same thread first ...
+    pub before: ConvCase,
+    /// ... whose client vanishes after this fraction (of 65536) of its stream, in this way
+    pub cut: u16,
+    pub how: u8,
+    /// byte-level edits of the earlier connection's stream
+    pub edits: Vec<(u16, u8, u8)>,
+    /// how many such earlier connections
+    pub repeat: u8,
+    /// the connection that is looked at
+    pub case: ConvCase,
+}
+
+pub fn c13_history_strategy(max_len: usize) -> BoxedStrategy<HistoryCase> {
+    (
+        corpus_strategy(max_len, true),
+        prop_oneof![3 => any::<u16>(), 1 => Just(u16::MAX)],
+        0u8..4,
+        prop_oneof![3 => Just(vec![]), 1 => proptest::collection::vec((any::<u16>(), 0u8..6, any::<u8>()), 1..3)],
+        1u8..4,
+        corpus_strategy(max_len, true),
+    )
+        .prop_map(|(before, cut, how, edits, repeat, case)| HistoryCase { before, cut, how, edits, repeat, case })
+        .boxed()
+}
+
+pub fn c13_history_test(hc: &HistoryCase) -> Verdict {
+    // the connection alone, on a thread that has never served anything
+    let case = hc.case.clone();
+    let alone = std::thread::Builder::new().stack_size(16 << 20).spawn(move || run_mem(&case, &MemOpts::default())).expect("spawn").join();
+    let Ok(alone) = alone else { return Verdict::Inconclusive("reference run panicked".into()) };
+    // the same connection on a thread that has served other clients before
+    let hc2 = hc.clone();
+    let after = std::thread::Builder::new()
+        .stack_size(16 << 20)
+        .spawn(move || {
+            let rd = render(&hc2.before.conv);
+            let raw = apply_edits(rd.with_nonce(b"00000000"), &hc2.edits);
+            let n = raw.len();
+            let k = if hc2.cut == u16::MAX { n } else { (hc2.cut as usize * n) >> 16 };
+            let kind = [CutKind::HalfClose, CutKind::Close, CutKind::Reset, CutKind::TimedOut][hc2.how as usize % 4];
+            let mut c = hc2.before.clone();
+            c.script = vec![Step::Send { from: 0, to: n }, Step::HalfClose];
+            let raw = Arc::new(raw);
+            let mut cut_inside_line = false;
+            for _ in 0..hc2.repeat.max(1) {
+                let _ = run_mem(&c, &MemOpts { raw: Some(raw.clone()), cut_at: Some((k, kind)), ..Default::default() });
+            }
+            if k > 0 && k < n && raw[k - 1] != b'\n' {
+                cut_inside_line = true;
+            }
+            (run_mem(&hc2.case, &MemOpts::default()), cut_inside_line)
+        })
+        .expect("spawn")
+        .join();
+    let Ok((after, cut_inside_line)) = after else { return Verdict::Inconclusive("history run panicked".into()) };
+    let (a, b) = (project(&alone), project(&after));
+    if a != b {
+        let (k, d) = diff_kind(&a, &b);
+        return fail(format!("C13/after-another-connection/{}", k.trim_start_matches('=')), format!("the same bytes on a fresh connection, served by a thread that has served a client before (which vanished after {}/65536 of its stream): {}", hc.cut, d));
+    }
+    let mut g = if cut_inside_line { Good::nontrivial() } else { Good::trivial() };
+    g.extra_evals = 1 + hc.repeat.max(1) as u64;
+    g = g.class(if cut_inside_line { "earlier-client-vanished-inside-a-line" } else { "earlier-client-vanished-at-a-line-end-or-finished" }).class_if(!hc.edits.is_empty(), "earlier-stream-edited").class(format!("earlier-connections={}", hc.repeat.max(1)));
+    Verdict::Pass(g)
+}
+
+// ------------------------------------------------------------------------------------------
 // C15: a vanishing client (fault enumeration)
 
 #[derive(Clone, Debug, Serialize, Deserialize)]
@@ -552,9 +625,10 @@ pub fn parts<'a>(cli: &'a Cli) -> Option<(Vec<Part<'a>>, &'static str, Vec<&'sta
                 |_| (),
                 |_, c| c13_test(c),
             ));
+            parts.push(make_part("mem-history", "CONV/mem", cli.cases(4_000, 200_000), move || c13_history_strategy(max_stream.min(6_000)), |_| (), |_, c| c13_history_test(c)));
             Some((
                 parts,
-                "corpus: conversations drawn from the generators of C02/C03/C06/C09/C10/C12/C16/C18 (all framing kinds, all error classes); for each: baseline with the script's own segments, then every single split point (a dense sample for streams > 600 bytes unless all_points), one byte per segment, and 20 (quick) / 200 (thorough) random multi-way splits, each read returning exactly one segment; oracle (metamorphic): delivered requests (heads, bodies, body_length, respond results) and the response byte stream with Date values blanked are identical to the baseline; evaluations counts every run; non-trivial: conversations with a split inside a CRLF, a chunk-size line, a body, or at a multiple of 1024",
+                "part mem-history: a corpus conversation served on a thread that has just served 1-3 other connections (corpus conversations, optionally edited, whose client vanished after a generated prefix: half-close, close, reset, read timeout) is compared with the same conversation served on a thread that has never served anything: what the application and the client observe is identical (pool workers are reused: nothing may be carried from one connection to the next); non-trivial: the earlier client vanished inside a line; part mem-splits: corpus: conversations drawn from the generators of C02/C03/C06/C09/C10/C12/C16/C18 (all framing kinds, all error classes); for each: baseline with the script's own segments, then every single split point (a dense sample for streams > 600 bytes unless all_points), one byte per segment, and 20 (quick) / 200 (thorough) random multi-way splits, each read returning exactly one segment; oracle (metamorphic): delivered requests (heads, bodies, body_length, respond results) and the response byte stream with Date values blanked are identical to the baseline; evaluations counts every run; non-trivial: conversations with a split inside a CRLF, a chunk-size line, a body, or at a multiple of 1024",
                 a,
             ))
         }
